@@ -235,6 +235,73 @@ func TestFirstLevelRandom(t *testing.T) {
 	}, func(c nameCase) bool { return len(c.Name) > 0 && c.Scope != "" })
 }
 
+// ---- names that do not fit the 16 bytes --------------------------------------------------------------------
+//
+// A NetBIOS name is 16 BYTES. A name of 17 or more bytes has no first-level encoding; the one thing the library
+// may not do with it is to encode something else without saying so. Either FirstLevelEncode refuses it, or what
+// it returns decodes to exactly that name. The names are over-long in bytes while short in other units: multi-byte
+// UTF-8 sequences (17..40 bytes in at most 16 characters), names of 16 characters plus combining marks, and plain
+// over-long ASCII and random bytes.
+
+func checkOverlong(c nameCase) []vf.Finding {
+	n := &nbtns.NetBIOSName{Name: string(c.Name), ScopeID: c.Scope}
+	enc, err := n.FirstLevelEncode()
+	if err != nil {
+		return nil
+	}
+	dec, derr := nbtns.FirstLevelDecode(enc)
+	// (modulo trailing-space padding, as everywhere: a 17th byte that is a space is indistinguishable from padding)
+	if derr != nil || dec == nil || !nameEq(dec.Name, c.Name) {
+		got := []byte(nil)
+		if dec != nil {
+			got = []byte(dec.Name)
+		}
+		return []vf.Finding{vf.F("NetBIOSName.FirstLevelEncode", "overlong-name-encoded-as-another-name", "name %x (%d bytes, %d characters) is accepted and encoded as %q, which decodes to %x (err %v)", []byte(c.Name), len(c.Name), len([]rune(string(c.Name))), enc, got, derr)}
+	}
+	return nil
+}
+
+func TestOverlongNames(t *testing.T) {
+	s := vf.Begin(t, P, "overlong-names")
+	multi := []string{"\u00e9", "\u00c0", "\u0416", "\u4e2d", "\u20ac", "\U0001F600", "\u0301"}
+	vf.Rapid(s, vf.N(4000, 60000), func(t *rapid.T) nameCase {
+		var b []byte
+		switch rapid.IntRange(0, 3).Draw(t, "shape") {
+		case 0: // at most 16 characters, more than 16 bytes
+			k := rapid.IntRange(1, 16).Draw(t, "chars")
+			for i := 0; i < k; i++ {
+				if rapid.IntRange(0, 2).Draw(t, "wide") == 0 {
+					b = append(b, rapid.SampledFrom(multi).Draw(t, "rune")...)
+				} else {
+					b = append(b, byte(rapid.IntRange('A', 'Z').Draw(t, "ch")))
+				}
+			}
+			for len(b) <= 16 {
+				b = append(b, rapid.SampledFrom(multi).Draw(t, "pad")...)
+			}
+		case 1: // ASCII, 17..40 bytes
+			b = rapid.SliceOfN(rapid.ByteRange('A', 'Z'), 17, 40).Draw(t, "ascii")
+		case 2: // any bytes, 17..40
+			b = rapid.SliceOfN(rapid.Byte(), 17, 40).Draw(t, "bytes")
+		default: // 16 bytes and a space behind them (a table that strips the padding first may take it for the 16-byte name)
+			b = append(rapid.SliceOfN(rapid.ByteRange('A', 'Z'), 16, 16).Draw(t, "sixteen"), ' ')
+		}
+		if b[0] == '*' {
+			b[0] = 'S'
+		}
+		c := nameCase{Name: b}
+		if rapid.IntRange(0, 3).Draw(t, "scoped") == 0 {
+			c.Scope = genScope(t)
+		}
+		return c
+	}, func(c nameCase) []vf.Finding {
+		if len([]rune(string(c.Name))) <= 16 {
+			s.Class("over-16-bytes-in-at-most-16-characters")
+		}
+		return checkOverlong(c)
+	}, func(c nameCase) bool { return len(c.Name) > 16 })
+}
+
 // ---- packets ---------------------------------------------------------------------------
 
 type jQ struct {
